@@ -4,13 +4,15 @@ REPO ?= /repo
 BUILD ?= /verif/build
 CC = gcc
 OPT ?= -O1
+# instrumented code: libc entry points redirected to the simulator, text placed in its own section (crash classification)
+POSTPROC = objcopy --redefine-syms=redef.txt --rename-section .text=itext
 RTFLAGS = -O2 -g -Wall -Wextra -Wno-unused-parameter -fno-omit-frame-pointer
 INSTR = -fsanitize=thread -U__SANITIZE_THREAD__ --param tsan-distinguish-volatile=1 \
 	--param tsan-instrument-func-entry-exit=0
 URCUFLAGS = $(OPT) -g -fno-omit-frame-pointer $(INSTR) -D_GNU_SOURCE -DURCU_VERIF \
 	-include $(REPO)/include/config.h -I$(REPO)/include -I$(REPO)/src -w $(EXTRA_URCU)
 SCENFLAGS = $(OPT) -g -fno-omit-frame-pointer $(INSTR) -D_GNU_SOURCE -DURCU_VERIF \
-	-I$(REPO)/include -I$(REPO)/src -Wall -Wno-unused-function $(EXTRA_URCU)
+	-I$(REPO)/include -I$(REPO)/src -Wall -Wno-unused-function -Wno-misleading-indentation $(EXTRA_URCU)
 
 RT_OBJS = $(BUILD)/rt.o $(BUILD)/os.o $(BUILD)/mem.o $(BUILD)/main.o $(BUILD)/oracle.o $(BUILD)/wgl.o
 COMMON_SRC = compat_arch compat_futex urcu-pointer wfqueue wfcqueue wfstack lfstack \
@@ -40,28 +42,28 @@ $(BUILD)/wgl.o: scen/wgl.c scen/wgl.h usim/usim.h
 	$(CC) $(RTFLAGS) -c $< -o $@
 
 $(BUILD)/u-urcu-memb.o: $(REPO)/src/urcu.c $(REPO_DEPS) redef.txt
-	$(CC) $(URCUFLAGS) -DRCU_MEMBARRIER -c $< -o $@ && objcopy --redefine-syms=redef.txt $@
+	$(CC) $(URCUFLAGS) -DRCU_MEMBARRIER -c $< -o $@ && $(POSTPROC) $@
 $(BUILD)/u-urcu-mb.o: $(REPO)/src/urcu.c $(REPO_DEPS) redef.txt
-	$(CC) $(URCUFLAGS) -DRCU_MB -c $< -o $@ && objcopy --redefine-syms=redef.txt $@
+	$(CC) $(URCUFLAGS) -DRCU_MB -c $< -o $@ && $(POSTPROC) $@
 $(BUILD)/u-urcu-qsbr.o: $(REPO)/src/urcu-qsbr.c $(REPO_DEPS) redef.txt
-	$(CC) $(URCUFLAGS) -DRCU_QSBR -c $< -o $@ && objcopy --redefine-syms=redef.txt $@
+	$(CC) $(URCUFLAGS) -DRCU_QSBR -c $< -o $@ && $(POSTPROC) $@
 $(BUILD)/u-urcu-bp.o: $(REPO)/src/urcu-bp.c $(REPO_DEPS) redef.txt
-	$(CC) $(URCUFLAGS) -c $< -o $@ && objcopy --redefine-syms=redef.txt $@
+	$(CC) $(URCUFLAGS) -c $< -o $@ && $(POSTPROC) $@
 $(BUILD)/u-%.o: $(REPO)/src/%.c $(REPO_DEPS) redef.txt
-	$(CC) $(URCUFLAGS) -c $< -o $@ && objcopy --redefine-syms=redef.txt $@
+	$(CC) $(URCUFLAGS) -c $< -o $@ && $(POSTPROC) $@
 
 $(BUILD)/s-glue-memb.o: scen/flavor_glue.c scen/flavor.h $(REPO_DEPS) redef.txt
-	$(CC) $(SCENFLAGS) -DGLUE_MEMB -c $< -o $@ && objcopy --redefine-syms=redef.txt $@
+	$(CC) $(SCENFLAGS) -DGLUE_MEMB -c $< -o $@ && $(POSTPROC) $@
 $(BUILD)/s-glue-mb.o: scen/flavor_glue.c scen/flavor.h $(REPO_DEPS) redef.txt
-	$(CC) $(SCENFLAGS) -DGLUE_MB -c $< -o $@ && objcopy --redefine-syms=redef.txt $@
+	$(CC) $(SCENFLAGS) -DGLUE_MB -c $< -o $@ && $(POSTPROC) $@
 $(BUILD)/s-glue-qsbr.o: scen/flavor_glue.c scen/flavor.h $(REPO_DEPS) redef.txt
-	$(CC) $(SCENFLAGS) -DGLUE_QSBR -c $< -o $@ && objcopy --redefine-syms=redef.txt $@
+	$(CC) $(SCENFLAGS) -DGLUE_QSBR -c $< -o $@ && $(POSTPROC) $@
 $(BUILD)/s-glue-bp.o: scen/flavor_glue.c scen/flavor.h $(REPO_DEPS) redef.txt
-	$(CC) $(SCENFLAGS) -DGLUE_BP -c $< -o $@ && objcopy --redefine-syms=redef.txt $@
+	$(CC) $(SCENFLAGS) -DGLUE_BP -c $< -o $@ && $(POSTPROC) $@
 $(BUILD)/s-uatomic-builtins.o: scen/uatomic.c $(wildcard scen/*.h) usim/usim.h $(REPO_DEPS) redef.txt
-	$(CC) $(SCENFLAGS) -DUAT_BUILTINS -DCONFIG_RCU_USE_ATOMIC_BUILTINS -c $< -o $@ && objcopy --redefine-syms=redef.txt $@
+	$(CC) $(SCENFLAGS) -DUAT_BUILTINS -DCONFIG_RCU_USE_ATOMIC_BUILTINS -c $< -o $@ && $(POSTPROC) $@
 $(BUILD)/s-%.o: scen/%.c $(wildcard scen/*.h) usim/usim.h $(REPO_DEPS) redef.txt
-	$(CC) $(SCENFLAGS) -c $< -o $@ && objcopy --redefine-syms=redef.txt $@
+	$(CC) $(SCENFLAGS) -c $< -o $@ && $(POSTPROC) $@
 
 $(BUILD)/usim: $(RT_OBJS) $(URCU_OBJS) $(SCEN_OBJS)
 	$(CC) -no-pie -g -o $@ $^ -lpthread
